@@ -59,6 +59,10 @@ def render_quads(quads):
 
 def render(op):
     k = op[0]
+    if k == "insertdata2":      # two separate GRAPH blocks naming the same graph
+        return "INSERT DATA { " + render_quads(op[1])[1:-1] + " " + render_quads(op[2])[1:-1] + " }"
+    if k == "modify2":
+        return "INSERT { " + render_quads(op[1])[1:-1] + " " + render_quads(op[2])[1:-1] + " } WHERE " + render_quads(op[3])
     if k == "insertdata":
         return "INSERT DATA " + render_quads(op[1])
     if k == "deletedata":
@@ -158,6 +162,10 @@ def apply_ref(op, D, union_default):
     from rdflib import BNode
     D = {k: set(v) for k, v in D.items()}
     k = op[0]
+    if k == "insertdata2":
+        return apply_ref(("insertdata", op[1] + op[2]), D, union_default)
+    if k == "modify2":
+        return apply_ref(("modify", None, None, op[1] + op[2], op[3]), D, union_default)
     if k == "insertdata":
         for s, p, o, g in op[1]:
             D.setdefault(None if g is None else tt(g), set()).add((tt(s), tt(p), tt(o)))
@@ -253,13 +261,16 @@ def ops():
           ("modify", None, None, [("?s", ":p", "?o", ":g3")], [("?s", ":p", "?o", ":g1")]),
           ("modify", ":g9", [("?s", ":p", "?o", None)], [("?s", ":z", "?o", None)], P),
           ]
+    # appended (indices above are used by the pair enumeration): the same graph named in two GRAPH blocks of one template
+    TWICE = [("insertdata2", [(":a", ":p", ":c", ":g1")], [(":a", ":q", 1, ":g1")]),
+             ("modify2", [("?s", ":m", "?o", ":g1")], [("?o", ":m", "?s", ":g1")], P)]
     for k in ("clear", "drop"):
         for t in ("DEFAULT", "NAMED", "ALL", ":g1", ":g9"):
             O.append((k, t))
     for k in ("add", "move", "copy"):
         for s, d in (("DEFAULT", ":g1"), (":g1", "DEFAULT"), (":g1", ":g2"), (":g1", ":g1"), (":g9", ":g1"), (":g1", ":g9")):
             O.append((k, s, d))
-    return O
+    return O + TWICE
 
 
 def build(kind, D, union_default):
